@@ -400,6 +400,50 @@ def locals_ref():
     return _LOCALS_REF
 
 
+def disambiguate_shadows(h, ref):
+    """A local name that is bound more often than in the pinned tree has been re-bound (`let x = f(x);` in front of a use the rules read by
+    name). The additional binders -- the later ones in source order -- and the uses that resolve to them (the driver records the binder of
+    every local path) are renamed `<name>__rebound<k>`, so that a rule that expects the original value no longer finds it under that name."""
+    want = {n: int(sig.split("/")[0]) for n, sig in ref}
+    binders = {}
+
+    def scan(x):
+        if isinstance(x, list):
+            if len(x) >= 5 and x[0] == "pbind" and isinstance(x[1], str) and isinstance(x[4], int):
+                binders.setdefault(x[1], [])
+                if x[4] not in binders[x[1]]:
+                    binders[x[1]].append(x[4])
+            for y in x:
+                scan(y)
+        elif isinstance(x, dict):
+            for y in x.values():
+                scan(y)
+    scan(h.get("params"))
+    scan(h.get("body"))
+    rename = {}
+    for name, ids in binders.items():
+        if name in want and len(ids) > want[name] and name != "self":
+            for k, bid in enumerate(ids[want[name]:], 1):
+                rename[bid] = f"{name}__rebound{k}"
+    if not rename:
+        return 0
+
+    def ren(x):
+        if isinstance(x, list):
+            if len(x) >= 5 and x[0] == "pbind" and isinstance(x[4], int) and x[4] in rename:
+                x[1] = rename[x[4]]
+            elif len(x) >= 5 and x[0] == "path" and isinstance(x[1], int) and x[3] == "local" and isinstance(x[-1], dict) and x[-1].get("b") in rename:
+                x[2] = rename[x[-1]["b"]]
+            for y in x:
+                ren(y)
+        elif isinstance(x, dict):
+            for y in x.values():
+                ren(y)
+    ren(h.get("params"))
+    ren(h.get("body"))
+    return len(rename)
+
+
 def canonical_locals(h, ref):
     """Alpha-normalisation: the rules name locals as the pinned tree does (refs/locals.json, generated by tools/gen_locals_ref.py).
     Locals that still carry their reference name are left alone; a local whose name is not in the reference takes the label of the
@@ -407,6 +451,7 @@ def canonical_locals(h, ref):
     A pure renaming therefore yields exactly the tree the rules were written against; anything else is seen as it is."""
     if not ref:
         return 0
+    n_shadow = disambiguate_shadows(h, ref)
     cur = local_names(h)
     ref_names = [n for n, _ in ref]
     cur_names = [n for n, _ in cur]
